@@ -171,7 +171,7 @@ func runDFSV(c *Ctx) {
 	// V1: visited[v] stored before successors are iterated
 	var mark *ssa.MapUpdate
 	core.Instrs(helper, func(in ssa.Instruction) {
-		if mu, ok := in.(*ssa.MapUpdate); ok && isSlot(mu.Map, pVis) && isParam(mu.Key, pV) {
+		if mu, ok := in.(*ssa.MapUpdate); ok && core.SetInsert(mu) && isSlot(mu.Map, pVis) && isParam(mu.Key, pV) {
 			mark = mu
 		}
 	})
@@ -222,8 +222,8 @@ func runDFSV(c *Ctx) {
 	}
 	guarded := false
 	for _, l := range core.Lits(core.Guards(cbCall.Block())) {
-		if l.Kind == "ok" && !l.Pol {
-			if lk, ok := l.Of.(*ssa.Lookup); ok && isSlot(lk.X, pVis) && isW(lk.Index) {
+		if lk, in, ok := core.MemberLit(l); ok && !in {
+			if isSlot(lk.X, pVis) && isW(lk.Index) {
 				guarded = true
 			}
 		}
